@@ -242,12 +242,15 @@ OPS = [
   ("fs_keys_under_standard_target", "eam adp", lambda it, info, rng: (bm.sec(it, "EAM-Density")[1].__setitem__(0, ["%s->%s" % (info["species"][0], info["species"][1]), "as.constant 1.0"]), it)[1]),
   ("standard_keys_under_fs_target", "fs", lambda it, info, rng: (bm.sec(it, "EAM-Density").__setitem__(1, [[s, "as.constant 1.0"] for s in info["species"]]), it)[1]),
   # ---- [Species]
-  ("species_key_without_dot", "eam fs adp", op_key("Species", lambda k, v: True, lambda k, rng: k.replace(".", "_"))),
-  ("species_value_nonnumeric", "eam fs adp", op_value("Species", lambda k, v: k.endswith("atomic_mass") or k.endswith("lattice_constant"), lambda v, rng: rng.choice(["heavy", "1,5", "12 amu"]))),
-  ("species_value_nonfinite", "eam fs adp", op_value("Species", lambda k, v: k.endswith("atomic_mass") or k.endswith("lattice_constant"), lambda v, rng: rng.choice(["nan", "inf", "-inf", "NaN", "Infinity"]))),
-  ("species_lattice_type_not_one_word", "eam fs adp", lambda it, info, rng: (bm.sec(it, "Species")[1].append(["%s.lattice_type" % info["species"][0], rng.choice(
+  ("species_key_without_dot", "*", op_key("Species", lambda k, v: True, lambda k, rng: k.replace(".", "_"))),
+  ("species_value_nonnumeric", "*", op_value("Species", lambda k, v: k.endswith("atomic_mass") or k.endswith("lattice_constant"), lambda v, rng: rng.choice(["heavy", "1,5", "12 amu"]))),
+  ("species_value_nonfinite", "*", op_value("Species", lambda k, v: k.endswith("atomic_mass") or k.endswith("lattice_constant"), lambda v, rng: rng.choice(["nan", "inf", "-inf", "NaN", "Infinity"]))),
+  ("species_lattice_type_not_one_word", "*", lambda it, info, rng: (bm.sec(it, "Species")[1].append(["%s.lattice_type" % info["species"][0], rng.choice(
       ["bcc\n    %s.lattice_constant : 4.05" % info["species"][0], "fcc lattice", "bcc\n  9 9 9 fcc", "h c p"])]), it)[1]),
-  ("species_atomic_number_not_integer", "eam fs adp", lambda it, info, rng: (bm.sec(it, "Species")[1].append(["%s.atomic_number" % info["species"][0], rng.choice(["13.5", "thirteen"])]), it)[1]),
+  # (the [Species] operators apply to PAIR files as well: the user guide lists the section for them, no pair target uses it)
+  ("species_key_with_an_empty_half", "*", lambda it, info, rng: ((bm.sec(it, "Species")[1] if bm.sec(it, "Species") else it.append(["Species", []]) or bm.sec(it, "Species")[1]).append(
+      rng.choice([[".atomic_mass", "26.98"], ["Al.", "26.98"], [".", "1.0"], [" .lattice_type", "bcc"]])), it)[1]),
+  ("species_atomic_number_not_integer", "*", lambda it, info, rng: (bm.sec(it, "Species")[1].append(["%s.atomic_number" % info["species"][0], rng.choice(["13.5", "thirteen"])]), it)[1]),
   ("unknown_species_without_mass", "eam adp", lambda it, info, rng: (bm.sec(it, "EAM-Embed")[1].append(["Xq", "as.constant 1.0"]), bm.sec(it, "EAM-Density")[1].append(["Xq", "as.constant 1.0"]), it)[2]),
   # ---- missing sections
   ("missing_pair_section", "*", drop_section("Pair")),
